@@ -1132,7 +1132,7 @@ func (x *ctx) applyModifies(st, pre *state, con *Contract, mods []*ModItem, env 
 		switch mi.Kind {
 		case "whole":
 			if mi.Type == "*" || mi.Field == "*" {
-				x.havocAll(st, mi.Type)
+				x.havocAllFor(st, mi.Type, con)
 				continue
 			}
 			key := mi.Type + "." + mi.Field
@@ -1390,7 +1390,36 @@ func (x *ctx) havocMap(st *state, m term) {
 	}
 }
 
+// logOfUnreachable: k is the call log (ghost_calls_N / ghost_last_N_*) of a `counted` function under contract that the
+// callee con cannot reach (statically, through calls, closures, function values and interface methods by name): a
+// `modifies *` of con leaves such a log alone.
+func (x *ctx) logOfUnreachable(con *Contract, k string) bool {
+	if con == nil || !strings.HasPrefix(k, "G:") {
+		return false
+	}
+	name := ""
+	switch {
+	case strings.HasPrefix(k, "G:calls_"):
+		name = strings.TrimPrefix(k, "G:calls_")
+	case strings.HasPrefix(k, "G:last_"):
+		name = strings.TrimPrefix(k, "G:last_")
+		if j := strings.Index(name, "_"); j > 0 {
+			name = name[:j]
+		}
+	default:
+		return false
+	}
+	if !x.w.countedName(name) {
+		return false
+	}
+	return !x.w.reachableNames(con)[name]
+}
+
 func (x *ctx) havocAll(st *state, typ string) {
+	x.havocAllFor(st, typ, nil)
+}
+
+func (x *ctx) havocAllFor(st *state, typ string, callee *Contract) {
 	var keys []string
 	for k := range x.hinfo {
 		keys = append(keys, k)
@@ -1399,6 +1428,9 @@ func (x *ctx) havocAll(st *state, typ string) {
 	for _, k := range keys {
 		if typ == "*" || strings.HasPrefix(k, typ+".") || (typ == "node" && strings.HasPrefix(k, "G:")) {
 			if x.w.immutable[k] || k == "Len" {
+				continue
+			}
+			if typ == "*" && callee != nil && x.logOfUnreachable(callee, k) {
 				continue
 			}
 			hi := x.hinfo[k]
